@@ -16,7 +16,7 @@ func init() {
 	register(&Property{
 		ID:    "C20",
 		Files: []string{"fp.go"},
-		Funcs: []string{"CurryDef", "CurryNew"},
+		Funcs: []string{"CurryDef", "CurryNew", "Compose", "Pipe", "Trampoline", "MatchFor", "Matches", "Apply", "Either", "DefPattern", "InCaseOf", "Otherwise", "NewCompData", "MatchCompType", "DefSum", "DefProduct", "CurryParam", "MakeVariadic"},
 		Gen:   genC20,
 		Rule: "N in 1..6 threads each Call 1..3 times with unique argument blocks on one CurryDef; fn logs the argument list it receives, yields, returns a value derived from it; MarkDone is called from inside fn at the k-th " +
 			"invocation or from another thread at a tape-chosen point; oracle: invocation argument lists form a chain extending by exactly one whole block, consistent with the real-time order of the Calls, at most one invocation per Call " +
